@@ -151,6 +151,25 @@ func runC12(p *Program, r *Result) {
 	}
 
 	// ---- R12.4
+	// ---- R12.5: decryption is incremental
+	r.Rule("R12.5", "a Read call decrypts at most one chunk: what has been authenticated is released before more input is consumed", 1)
+	if rd, rc := r.anchor(pkgStream, "Reader", "Read"), r.anchor(pkgStream, "Reader", "readChunk"); rd != nil && rc != nil {
+		calls := callsTo(rd, rc.String())
+		if len(calls) == 0 {
+			r.Unk(rd.String(), "call:readChunk", "", "Read does not call readChunk")
+		}
+		for i, c := range calls {
+			vis := p.Reach([]Loc{locAfter(c.(ssa.Instruction))}, nil)
+			again := false
+			for _, c2 := range calls {
+				if vis[c2.(ssa.Instruction)] {
+					again = true
+				}
+			}
+			r.Check(!again, rd.String(), callKey("readChunk", i)+":once", r.pos(c), "no readChunk is reachable after this one within the same Read", "after reading a chunk Read can read another one before returning: a caller with a large buffer gets nothing until several chunks (up to its buffer size) were consumed, so decryption is no longer incremental")
+		}
+	}
+
 	r.Rule("R12.4", "a full buffer is flushed only when more data is pending (or on Close)", 1)
 	checkChunkFlushGuard(p, r)
 }
@@ -211,6 +230,25 @@ func checkChunkFlushGuard(p *Program, r *Result) {
 					}
 				}
 			}
+			// remaining input, flush before the copy: the loop-carried p itself (the loop condition),
+			// as long as nothing has been taken from it yet in this iteration
+			if ph, isPhi := arg.(*ssa.Phi); isPhi && (at.Op == "!=" && k == 0 || at.Op == ">" && k == 0 || at.Op == ">=" && k == 1) {
+				fromParam := false
+				for _, e := range ph.Edges {
+					if len(write.Params) > 1 && stripConv(e) == ssa.Value(write.Params[1]) {
+						fromParam = true
+					}
+				}
+				consumed := false
+				for _, ref := range *ph.Referrers() {
+					if sl, isSl := ref.(*ssa.Slice); isSl && sl.X == ssa.Value(ph) && sl.Low != nil && dominatesInstr(sl, c.(ssa.Instruction)) {
+						consumed = true
+					}
+				}
+				if fromParam && !consumed {
+					okMore = true
+				}
+			}
 			// remaining input: a slice p[n:] of the loop-carried p with n the copy count
 			if sl, isSl := arg.(*ssa.Slice); isSl && at.Op == "!=" && k == 0 {
 				if cp, isCp := sl.Low.(*ssa.Call); isCp && isBuiltin(&cp.Call, "copy") && cp.Call.Args[1] == sl.X {
@@ -227,6 +265,99 @@ func checkChunkFlushGuard(p *Program, r *Result) {
 	}
 	if n == 0 {
 		r.Bad(pkgStream, "call:flushChunk", "", "no non-final flush found: a stream longer than one chunk could not be written")
+	}
+	checkNoPlaintextDropped(p, r)
+}
+
+// checkNoPlaintextDropped: the writer's buffered plaintext (w.unwritten) only ever grows, except
+// where what it held has just been sealed (or it is known to be empty, or the writer is being
+// built). A store that shortens it anywhere else throws plaintext away: the bytes written so far
+// would not all be in the file.
+func checkNoPlaintextDropped(p *Program, r *Result) {
+	for _, fs := range p.fieldStores(pkgStream+".Writer", "unwritten") {
+		fn := fs.Fn
+		tb := p.TB(fn)
+		st := fs.Store
+		key := "store:unwritten"
+		if al, ok := fs.FA.X.(*ssa.Alloc); ok && al.Heap {
+			continue // the constructor
+		}
+		fkey := fieldKey(fs.FA)
+		// (a) it grows: the new length is at least the length it had
+		grows := false
+		var lastLoad *ssa.UnOp
+		for _, b := range fn.Blocks {
+			for _, in := range b.Instrs {
+				ld, ok := in.(*ssa.UnOp)
+				if !ok || ld.Op != token.MUL {
+					continue
+				}
+				fa, ok := ld.X.(*ssa.FieldAddr)
+				if !ok || fieldKey(fa) != fkey {
+					continue
+				}
+				if dominatesInstr(ld, st) && !tb.fieldWrittenBetween(ld, st, fkey) {
+					lastLoad = ld
+				}
+			}
+		}
+		if lastLoad != nil {
+			s := tb.system(st)
+			os, oc, _ := tb.lenSym(lastLoad)
+			ns, nc, _ := tb.lenSym(st.Val)
+			// old + oc <= new + nc
+			if s.implied(os, ns, nc-oc) || s.linImplied(os, ns, nc-oc) {
+				grows = true
+			}
+		}
+		// (b) what it held was sealed just before, (c) or it is known to be empty
+		sealed := false
+		for _, c := range callsTo(fn, "invoke (crypto/cipher.AEAD).Seal") {
+			if len(c.Common().Args) < 3 || !dominatesInstr(c.(ssa.Instruction), st) {
+				continue
+			}
+			ld, isLd := stripConv(c.Common().Args[2]).(*ssa.UnOp)
+			if !isLd || ld.Op != token.MUL {
+				continue
+			}
+			if fa, isFA := ld.X.(*ssa.FieldAddr); !isFA || fieldKey(fa) != fkey || tb.fieldWrittenBetween(ld, c.(ssa.Instruction), fkey) {
+				continue
+			}
+			// nothing of the writer's own code stores to the field in between (the destination's
+			// Write is an interface call: another object, whatever its type)
+			clean := true
+			vis := p.Reach([]Loc{locAfter(c.(ssa.Instruction))}, func(in ssa.Instruction) bool { return in == ssa.Instruction(st) })
+			for in := range vis {
+				switch x := in.(type) {
+				case *ssa.Store:
+					if fa, ok := x.Addr.(*ssa.FieldAddr); ok && fieldKey(fa) == fkey && dominatesInstr(c.(ssa.Instruction), x) && x != st {
+						if cfgReachesInstr(p, x, st) {
+							clean = false
+						}
+					}
+				case ssa.CallInstruction:
+					if callee := staticCallee(x.Common()); callee != nil && p.inModule(callee) {
+						if eff := p.EffectsOf(callee); eff != nil && eff.AllFields[fkey] && cfgReachesInstr(p, in, st) {
+							clean = false
+						}
+					}
+				}
+			}
+			if clean {
+				sealed = true
+			}
+		}
+		_, empty := hasFactShort(tb.FactsAt(st.Block()), "len(Field(Recv.unwritten)) == 0")
+		switch {
+		case grows:
+			r.OK(fn.String(), key, r.pos(st), "the buffered plaintext grows")
+		case sealed:
+			r.OK(fn.String(), key, r.pos(st), "reset after the buffered plaintext was sealed")
+		case empty:
+			r.OK(fn.String(), key, r.pos(st), "reset of an empty buffer")
+		default:
+			r.Bad(fn.String(), key, r.pos(st), "w.unwritten is replaced by "+short(tb.Term(st.Val).String())+" on a path where what it held has not been sealed and is not known to be empty: buffered plaintext is dropped (the file would not hold every byte written)")
+		}
 	}
 }
 
@@ -288,4 +419,16 @@ func flushGuardByArithmetic(p *Program, write *ssa.Function, c ssa.CallInstructi
 		}
 	}
 	return full, more
+}
+
+// cfgReachesInstr: to can be reached from the point after from.
+func cfgReachesInstr(p *Program, from, to ssa.Instruction) bool {
+	hit := false
+	p.Reach([]Loc{locAfter(from)}, func(x ssa.Instruction) bool {
+		if x == to {
+			hit = true
+		}
+		return x == to
+	})
+	return hit
 }
